@@ -21,6 +21,7 @@ import (
 	"context"
 	log "log/slog"
 	"net"
+	"sync"
 	"time"
 
 	"google.golang.org/grpc"
@@ -175,6 +176,7 @@ func Run(srv *Service, conf *GrpcConfig, sconf *security.SecurityConfig) (func()
 	if err != nil {
 		return nil, err
 	}
+	trackLis := &trackingListener{Listener: lis, conns: map[*trackedConn]struct{}{}}
 
 	grpcOpts := []grpc.ServerOption{
 		// see locksrv/connection_handler.go
@@ -214,7 +216,7 @@ func Run(srv *Service, conf *GrpcConfig, sconf *security.SecurityConfig) (func()
 
 	// The main server function, which blocks
 	go func() {
-		if err := grpcServer.Serve(lis); err != nil {
+		if err := grpcServer.Serve(trackLis); err != nil {
 			// ErrServerStopped happens as part of normal grpcServer shutdown
 			if err != grpc.ErrServerStopped {
 				panic("error starting grpc server: " + err.Error())
@@ -229,8 +231,61 @@ func Run(srv *Service, conf *GrpcConfig, sconf *security.SecurityConfig) (func()
 		log.Warn("Shutting down...")
 		// Can't GracefulStop() here or clients waiting for locks will block
 		// the server from exiting.
+		//
+		// Stop() waits for connections that have not completed their handshake
+		// (up to grpc's 120 second connection timeout), so close every accepted
+		// connection first.
+		trackLis.closeConns()
 		grpcServer.Stop()
 	}, nil
+}
+
+// trackingListener remembers the connections it has accepted and not yet
+// closed so that they can all be closed when the server is shut down.
+type trackingListener struct {
+	net.Listener
+	mu     sync.Mutex
+	conns  map[*trackedConn]struct{}
+	closed bool
+}
+
+type trackedConn struct {
+	net.Conn
+	lis *trackingListener
+}
+
+func (l *trackingListener) Accept() (net.Conn, error) {
+	c, err := l.Listener.Accept()
+	if err != nil {
+		return nil, err
+	}
+	tc := &trackedConn{Conn: c, lis: l}
+	l.mu.Lock()
+	defer l.mu.Unlock()
+	if l.closed {
+		c.Close()
+	} else {
+		l.conns[tc] = struct{}{}
+	}
+	return tc, nil
+}
+
+// closeConns closes all open connections, and any accepted from now on
+func (l *trackingListener) closeConns() {
+	l.mu.Lock()
+	defer l.mu.Unlock()
+	l.closed = true
+	for c := range l.conns {
+		c.Conn.Close()
+	}
+	l.conns = nil
+}
+
+func (c *trackedConn) Close() error {
+	c.lis.mu.Lock()
+	delete(c.lis.conns, c)
+	c.lis.mu.Unlock()
+	return c.Conn.Close()
 }
 
 // authPasswordInterceptor returns a gRPC interceptor for password authentication
